@@ -291,6 +291,58 @@ def composition_cases(tier, rng):
     return cases, triples
 
 
+class _Toggle:
+    """a namespace callable whose answer changes from call to call (a flag that is consumed, a cursor that runs out)"""
+
+    def __init__(self, first):
+        self.state = first
+
+    def __call__(self):
+        r = self.state
+        self.state = not self.state
+        return 'T' if r else ''
+
+
+def _merge_text(blocks):
+    out = []
+    for b in blocks:
+        if b.get('t') == 'text' and out and out[-1].get('t') == 'text':
+            out[-1] = {'t': 'text', 's': out[-1]['s'] + b['s']}
+        elif not (b.get('t') == 'text' and b['s'] == ''):
+            out.append(b)
+    return out
+
+
+def _dyn_one(job):
+    """rendering composes also when the namespace changes under way: wherever the compiled blocks of A.B are those of A followed
+    by those of B, rendering A.B is rendering A and then B on the same namespace values (whose state carries over)"""
+    syn, a, b = job
+    cls = front.template_class(syn)
+    try:
+        ts = [cls(x) for x in (a, b, a + b)]
+        for t in ts:
+            t.cook()
+        na, nb, nab = [front.normalise(t._v_blocks) for t in ts]
+    except Exception:  # noqa
+        return {'skip': 1}
+    if _merge_text(na + nb) != _merge_text(nab):
+        return {'skip': 1}
+    outs = []
+    for first in (True, False):
+        def env():
+            return {'x': _Toggle(first), 'y': _Toggle(not first), 's': [1, 2], 'v': 'VAL', 'o': None}
+        try:
+            e1 = env()
+            sep = ts[0](**e1) + ts[1](**e1)
+            whole = ts[2](**env())
+        except Exception:  # noqa
+            continue
+        if sep != whole:
+            return {'bad': {'syn': syn, 'a': a, 'b': b, 'got_a_then_b': sep, 'got_ab': whole, 'x_first': first}}
+        outs.append(1)
+    return {'ok': len(outs)}
+
+
 def main(tier):
     V = common.Verdicts(PID, tier)
     rng = random.Random(common.seed())
@@ -373,6 +425,21 @@ def main(tier):
             V.violation({'kind': 'departure', 'clause': 'composes', 'syn': c['syn'], 'a': cases[off + ia]['src'],
                          'b': cases[off + ib]['src'], 'env': c['env'], 'got_a': ra['render'][1], 'got_b': rb['render'][1],
                          'got_ab': rab['render'][1], 'cls': 'composes'})
+    # ... and under namespaces whose values change while the templates are rendered
+    pool = [p_ for p_ in pool_sources(rng, 1) if p_[0] in ('html', 'epfs')]
+    djobs = []
+    for syn in ('html', 'epfs'):
+        p_ = [s_ for y_, s_ in pool if y_ == syn and ('x' in s_ or 'y' in s_)]
+        allp = list(itertools.product(p_, repeat=2))
+        rng.shuffle(allp)
+        djobs += [(syn, a_, b_) for a_, b_ in allp[:1500 if tier == 'quick' else 20000]]
+    for r in common.pool_map(_dyn_one, djobs, chunk=100, per_case=30):
+        if '_crash' in r or '_timeout' in r:
+            common.machinery_failure('dynamic composition driver: %s' % repr(r)[:600])
+        if 'bad' in r:
+            V.violation(dict(r['bad'], kind='departure', clause='composes', cls='composes-changing-namespace'))
+        elif 'ok' in r:
+            V.count('compositions_under_changing_namespaces', r['ok'])
     cov = {'states': stats['states'], 'transitions': stats['transitions'],
            'traces_validated_against_impl': V.counters.get('renderings_conform', 0) + V.counters.get('guarded_renderings_conform', 0) + V.counters.get('bytes_renderings_conform', 0),
            'sources': len(cases), 'tag_free_sources': tagfree, 'compositions_claimed': composed,
